@@ -1,6 +1,7 @@
 (* C03 / C12 for the Retry machine, part 12: in a quiescent state every in-flight record in _jobs is legitimate
-   (delegate future not done, callback registered, retry future not done); hence the only records a done future
-   could still have are idle records of a cancelled future. *)
+   (delegate future not done, callback registered, retry future not done) or its delegate future was cancelled by
+   somebody else (EEnvCancel); hence the only records a done future could still have are idle records of a cancelled
+   future, or in-flight records on a foreign-cancelled delegate future. *)
 From Coq Require Import List ZArith Bool Arith Lia.
 From ME Require Import Base.Machine Base.Fut Base.GenPrelude Gen.RetryGen Model.Retry.
 From ME Require Proofs.Retry_InvB0 Proofs.Retry_InvB1 Proofs.Retry_InvB2 Proofs.Retry_InvB3 Proofs.Retry_InvB4
@@ -11,7 +12,9 @@ Import ListNotations.
 
 Lemma retry_inflight_at_quiescence s tau since : reachable_from step init s -> quiescent s tau since ->
   forall r d, In r (jobs s) -> jdel (recs s r) = Some d ->
-  d < ndel s /\ fdone (ds s d) = false /\ dcb s d = true /\ fdone (rs s (jf (recs s r))) = false.
+  d < ndel s /\
+  ((fdone (ds s d) = false /\ dcb s d = true /\ fdone (rs s (jf (recs s r))) = false) \/
+   (fcancelled (ds s d) = true /\ envc s d)).
 Proof.
   intros R Q r d Hin Hjd. pose proof (quiescent_prog s tau since R Q) as QP.
   assert (NC : forall d r t, chainhd d r (thr s t) = false) by (intros d0 r0 t; destruct (QP t) as [-> | ->]; reflexivity).
@@ -20,14 +23,14 @@ Proof.
   assert (Hr : r < nrec s) by (apply (ri_jobs s (RI_reach s R)); exact Hin).
   destruct (pi_del s HP r d Hr Hjd) as [Hd Ef].
   destruct (R34_reach s R) as [H3 H4].
+  split; [exact Hd|].
+  destruct (fcancelled (ds s d)) eqn:Ecan.
+  { right. split; [reflexivity|]. destruct (H4 r d Hin Hjd Ecan) as [[c W]|E]; [rewrite NW in W; discriminate|exact E]. }
+  left.
   assert (Nd : fdone (ds s d) = false).
-  { destruct (ds s d) eqn:E; try reflexivity; exfalso.
-    - assert (C : fcancelled (ds s d) = true) by (rewrite E; reflexivity).
-      destruct (H4 r d Hin Hjd C) as [c W]. rewrite NW in W. discriminate.
-    - assert (C : fcancelled (ds s d) = true) by (rewrite E; reflexivity).
-      destruct (H4 r d Hin Hjd C) as [c W]. rewrite NW in W. discriminate.
-    - destruct (H3 r d Hin Hjd E) as [t [C|W]]; [rewrite NC in C|rewrite NW in W]; discriminate. }
-  split; [exact Hd|]. split; [exact Nd|].
+  { destruct (ds s d) eqn:E; try reflexivity; try discriminate Ecan; exfalso.
+    destruct (H3 r d Hin Hjd E) as [t [C|W]]; [rewrite NC in C|rewrite NW in W]; discriminate. }
+  split; [exact Nd|].
   assert (Hc : dcb s d = true).
   { destruct (dcb s d) eqn:Ec; [reflexivity|]. destruct (AP_reach s R d Hd Ec) as [t Ht].
     apply (addhd_chainhd d r) in Ht. rewrite NC in Ht. discriminate. }
@@ -44,13 +47,16 @@ Proof.
     apply (Q2 d); [|exact Ef]. split; [exact Hd|]. left. unfold Retry_InvB3.started. rewrite Nd. apply andb_false_r.
 Qed.
 
-(* what a done future can still own at quiescence: at most idle records of a CANCELLED future *)
+(* what a done future can still own at quiescence: at most idle records of a CANCELLED future, or an in-flight
+   record whose delegate future somebody else cancelled *)
 Lemma retry_done_job_residue s tau since : reachable_from step init s -> quiescent s tau since ->
   forall r, In r (jobs s) -> fdone (rs s (jf (recs s r))) = true ->
-  jdel (recs s r) = None /\ fcancelled (rs s (jf (recs s r))) = true.
+  (jdel (recs s r) = None /\ fcancelled (rs s (jf (recs s r))) = true) \/
+  (exists d, jdel (recs s r) = Some d /\ fcancelled (ds s d) = true /\ envc s d).
 Proof.
   intros R Q r Hin Hdn. destruct (jdel (recs s r)) as [d|] eqn:Ed.
-  - destruct (retry_inflight_at_quiescence s tau since R Q r d Hin Ed) as (_ & _ & _ & X). congruence.
-  - split; [reflexivity|]. destruct (rs s (jf (recs s r))) eqn:E; try discriminate Hdn; try reflexivity.
+  - destruct (retry_inflight_at_quiescence s tau since R Q r d Hin Ed) as (_ & [(_ & _ & X)|(X & Y)]); [congruence|].
+    right. exists d. auto.
+  - left. split; [reflexivity|]. destruct (rs s (jf (recs s r))) eqn:E; try discriminate Hdn; try reflexivity.
     exfalso. exact (retry_finished_no_idle_job s R _ E r Hin eq_refl Ed).
 Qed.
